@@ -335,7 +335,9 @@ class Agent(dbus.service.Object):
         try:
             ctr = self._fwd_queue.pop(0)
 
-            for blk in list(ctr.block_type(PreviousNodeBlock)):
+            # by type code: a block which could not be decoded
+            # is not indexed under its payload class
+            for blk in list(ctr.block_type(6)):
                 ctr.remove_block(blk)
             ctr.add_block(CanonicalBlock() / PreviousNodeBlock(node=self._config.node_id))
 
@@ -344,7 +346,7 @@ class Agent(dbus.service.Object):
                 # re-encode the block data from the updated payload
                 blk.delfieldval('btsd')
 
-            for blk in list(ctr.block_type(BundleAgeBlock)):
+            for blk in list(ctr.block_type(7)):
                 ctr.remove_block(blk)
             create_dtntime = ctr.bundle.primary.create_ts.getfieldval('dtntime')
             if create_dtntime != 0:
